@@ -354,10 +354,9 @@ def doReload (w : World) (t : Oid) : World × List Creation × Option (Oid × Na
   match getO w.objs t with
   | none => (w, [], none, .nobj)
   | some T =>
-    if t = masterOid then (w, [], none, .nobj)
-    else
-      let o : Obj := { T with euid := none }
-      ({ w with objs := setO w.objs o }, [{ name := w.nameOf T, ans := none, made := some o }], none, .int 1)
+    -- (also of the master object: reload_object(master()) is open to everybody and resets the master's euid)
+    let o : Obj := { T with euid := none }
+    ({ w with objs := setO w.objs o }, [{ name := w.nameOf T, ans := none, made := some o }], none, .int 1)
 
 /-- one segment record: what happened between two uid snapshots, in the context (actor, op) of the innermost
     running op; closed by the snapshot of every registered object (getuid on each) -/
